@@ -256,11 +256,16 @@ def run(sh, spec):
     if spec["part"] == "enum":
         w = spec["width"]
         texts = texts_for(w)
+        last = None
         for ops in enumerate_sequences(spec["depth"], w, texts, spec["slice"]):
             rec = {"width": w, "ops": [list(o) for o in ops]}
             judge(sh, lab, ops, w, texts, rec)
-            sh.case((w, tuple(ops)), nontrivial(ops, texts, w))
-        sh.sample({"width": w, "ops": [["new"], ["w", 0, 4], ["new"], ["w", 1, 0], ["ow", 0, 5]], "texts": texts})
+            nt = nontrivial(ops, texts, w)
+            sh.case((w, tuple(ops)), nt)
+            if nt:
+                last = rec
+        if last:
+            sh.sample(dict(last, texts=texts))
     else:
         rng = sh.rng
         for i in range(spec["n"]):
